@@ -219,10 +219,11 @@ def _run_uniq_hkl(desc):
     for nlen in (1, 2, 3, 4, 5, 8):
         for start in range(0, hkls.shape[1] - nlen, 17):
             sub = hkls[:, start:start + nlen].copy()
+            keys = [tuple(sub[:, j]) for j in range(nlen)]            # noted BEFORE the call: the check does not assume the list survives it
             r = sym_u.find_uniq_hkls(sub, grp)
-            if r.shape != sub.shape or any(tuple(r[:, j]) != single[tuple(sub[:, j])] for j in range(nlen)):
+            if r.shape != sub.shape or any(tuple(r[:, j]) != single[keys[j]] for j in range(nlen)):
                 sh.violation("%s:find_uniq_hkls-depends-on-list-length" % name, {"kind": "uniq_hkl", "group": name, "length": nlen, "start": start},
-                             {"got": r, "expected": [single[tuple(sub[:, j])] for j in range(nlen)]})
+                             {"got": r, "expected": [single[keys[j]] for j in range(nlen)]})
                 break
             sh.evaluations += nlen
     # representative lies in the orbit and reduction is idempotent
